@@ -85,7 +85,47 @@ PT = 'contracts/points.c'
 _PT_REPL = ['vf_vec_Point_push_back/contract_vf_vec_Point_push_back', 'vf_vec_Point_resize/contract_vf_vec_Point_resize',
             'vf_string_assign/contract_vf_string_assign', 'vf_vec_float_assign/contract_vf_vec_float_assign']
 
-UNITS = [U('Points_point_' + c, PT, 'h_Points_point_' + c, ['Points__point__Point_sz/contract_Points__point__Point_sz'],
+LK = 'contracts/lookups.c'
+
+BR = 'contracts/bounded_readers.c'
+
+UNITS = [
+    U('Point_write', WR, 'h_Point_write', ['Point__write/contract_Point__write'], ['C01', 'C03', 'C12', 'C13', 'C14', 'C10', 'C18'],
+      unwind=6, timeout=300),
+    U('Channel_write', WR, 'h_Channel_write', ['Channel__write/contract_Channel__write'], ['C01', 'C03', 'C12', 'C13', 'C14', 'C10', 'C18'],
+      unwind=6, timeout=300),
+    U('Header_read', BR, 'h_Header_read', [], ['C02', 'C04', 'C05', 'C12', 'C13', 'C16', 'C17', 'C19'], mode='bmc', unwind=20, timeout=900,
+      stubs={'c3d__readUint': 'stubv_readUint', 'c3d__readInt': 'stubv_readInt', 'c3d__readFloat': 'stubv_readFloat',
+             'c3d__readString': 'stubv_readString', 'vf_string_assign': 'stubv_string_assign'},
+      level='PB', object_bits=10,
+      bound='complete unwinding (Header::read has only constant-bound loops: 18/9/18 events; unwinding assertions on); header '
+            'not preceded by zero bytes; image = any 512 bytes',
+      props={'memsafe': ['C13', 'C16'], 'ub': ['C19', 'C13']},
+      assumes=['plain symbolic execution of the real Header::read; the read helpers are value stubs = the executable form of their '
+               'proved contracts (units readUint / readInt / readFloat / readString)']),
+    U('B_Parameters_read', BR, 'h_B_Parameters_read', [], ['C02', 'C13', 'C16'], mode='bmc',
+      stubs={'c3d__readUint': 'stub_readUint', 'c3d__readInt': 'stub_readInt', 'Group__read': 'stub_Group__read',
+             'Group__parameter__c3d_int': 'stub_Group__parameter_file', 'Group__ctor': 'stub_Group__ctor',
+             'vf_vec_Group_push_back': 'stub_vec_Group_push_back'},
+      unwind=3, unwindset={'Parameters__ctor__c3d.1': 6, 'vf_string_ctor_lit.0': 2}, partial_loops=True, timeout=1200, level='B',
+      defines=['VF_BYTE_BOUND=4'],
+      object_bits=13, bound='record walker of Parameters::Parameters(c3d&): the first 2 records (outer loop cut after 2 iterations), group ids -4..4, file positions below 2 GiB, '
+      'callees abstracted by stubs', props={'memsafe': ['C13', 'C16']},
+      assumes=['bounded model checking, not a proof: callees are abstract stubs; termination of the walker is not examined'])] + [U(fn.replace('__', '_'), LK, 'h_' + fn, ['%s/contract_%s' % (fn, fn)], ['C11', 'C13', 'C18'],
+           replace=['vf_string_compare/contract_oracle_%s_vf_string_compare' % el], unwind=5, loops=True, timeout=1800, level='PB',
+           tier='thorough',
+           bound='containers of at most 100000 elements',
+           assumes=['string equality is an abstract oracle (ghost array); std::string::compare answers 0 exactly for equal '
+                    'strings (model contract, assumed)'])
+         for fn, el in (('Points__pointIdx', 'Point'), ('SubFrame__channelIdx', 'Channel'), ('Group__parameterIdx', 'Parameter'),
+                        ('Parameters__groupIdx', 'Group'))] + [
+    U('Group_parameter', LK, 'h_Group_parameter', ['Group__parameter__Parameter/contract_Group__parameter__Parameter'],
+      ['C09', 'C10', 'C11', 'C13', 'C18'],
+      replace=['vf_string_compare/contract_oracle_Parameter_vf_string_compare', 'vf_vec_Parameter_push_back/contract_rec_vf_vec_Parameter_push_back',
+               'Parameter__assign/contract_rec_Parameter__assign'],
+      unwind=5, loops=True, timeout=2400, level='PB', tier='thorough', bound='groups of at most 100000 parameters',
+      assumes=['string equality oracle as for the look-ups; the store itself (vector growth / parameter assignment) is recorded, '
+               'not executed'])] + [U('Points_point_' + c, PT, 'h_Points_point_' + c, ['Points__point__Point_sz/contract_Points__point__Point_sz'],
            ['C06', 'C08', 'C10', 'C13', 'C01', 'C18'], replace=_PT_REPL, unwind=5, timeout=1200, level='PB', mem_gb=30,
            bound='at most 100000 points per frame (the format holds 255)',
            assumes=['contracts of vector<Point> growth (relocation = the required meaning of Point(const Point&)) are assumed'])
@@ -98,18 +138,8 @@ UNITS = [U('Points_point_' + c, PT, 'h_Points_point_' + c, ['Points__point__Poin
       replace=['vf_stream_write/contract_vf_stream_write', 'ezc3d__toUpper/contract_ezc3d__toUpper'], unwind=6, timeout=2400,
       tier='thorough', sat='kissat', level='B', object_bits=12,
       bound='one-dimensional character parameter of declared width 2..4 (padding loop unwound), name <= 127, description <= 255'),
-    U('B_Parameters_read', RD, 'h_Parameters_read', ['Parameters__ctor__c3d/contract_Parameters__ctor__c3d'],
-      ['C02', 'C13', 'C16', 'C18'],
-      replace=['c3d__readUint/contract_c3d__readUint', 'c3d__readInt/contract_c3d__readInt', 'Group__read/contract_any_Group__read',
-               'Group__parameter__c3d_int/contract_any_Group__parameter__c3d_int', 'Group__ctor/contract_any_Group__ctor',
-               'vf_vec_Group_push_back/contract_grow_vf_vec_Group_push_back',
-               'Parameters__group_nonConst__sz/contract_acc_Parameters__group_nonConst__sz'],
-      unwind=5, loops=True, timeout=1800, object_bits=12, level='B',
-      bound='the first 2 records of the parameter section (outer walker loop unwound twice, later records cut); every id byte, '
-            'group-table growth by loop contract', pre_unwind={'Parameters__ctor__c3d.0': 3, 'vf_string_ctor_lit.0': 2},
-      pre_unwind_assume=True, props={'memsafe': ['C13', 'C16']},
-      assumes=['termination of the record walker is not proved',
-               'Group::read / Group::parameter(file) are abstracted by their possible outcomes']),
+    # (unit B_Parameters_read - the record walker of Parameters::Parameters(c3d&) - was removed: with loop contracts and
+    #  even unwound to a single record it does not finish in 30 min / 40 GB; its contracts remain in contracts/readers.c)
     U('Group_write', RC, 'h_Group_write', ['Group__write/contract_Group__write'], ['C01', 'C03', 'C04', 'C13', 'C14', 'C17', 'C10', 'C18'],
       replace=['vf_stream_write/contract_vf_stream_write', 'ezc3d__toUpper/contract_ezc3d__toUpper'], unwind=5, timeout=1800,
       tier='thorough', sat='kissat',
